@@ -382,12 +382,19 @@ class TkCfg:
     def describe(self):
         return {k: v for k, v in self.kw.items()}
 
+    _CACHE = {}
+
     def tk(self):
         if self._tk is None:
-            kw = dict(self.kw)
-            kw["step_sizes"] = None if kw["step_sizes"] is None else list(kw["step_sizes"])
-            kw["note_values"] = None if kw["note_values"] is None else list(kw["note_values"])
-            self._tk = Tokeniser(**kw)
+            key = repr(sorted(self.kw.items()))
+            if key not in TkCfg._CACHE:
+                kw = dict(self.kw)
+                kw["step_sizes"] = None if kw["step_sizes"] is None else list(kw["step_sizes"])
+                kw["note_values"] = None if kw["note_values"] is None else list(kw["note_values"])
+                if len(TkCfg._CACHE) > 400:
+                    TkCfg._CACHE.clear()
+                TkCfg._CACHE[key] = Tokeniser(**kw)
+            self._tk = TkCfg._CACHE[key]
         return self._tk
 
     def words(self):
